@@ -154,20 +154,26 @@ class reusable_storage_mtsafe: public reusable_storage {
 public:
     void *alloc(std::size_t sz)  {
         void *p;
+        //owner of the block: this storage if the block is the reusable block, nullptr if it was allocated on heap
+        reusable_storage_mtsafe *owner;
         //acquire - we are taking over the block (its pointer, capacity and content) from the previous owner
         if (_busy.exchange(true, std::memory_order_acquire)) {
             p = ::operator new(sz+sizeof(reusable_storage_mtsafe **));
+            owner = nullptr;
         } else {
             p = reusable_storage::alloc(sz+sizeof(reusable_storage_mtsafe **));
+            owner = this;
         }
         auto s = reinterpret_cast<reusable_storage_mtsafe **>(reinterpret_cast<char *>(p) + sz);
-        *s = this;
+        *s = owner;
         return p;
     }
     static void dealloc(void *ptr, std::size_t sz) {
         auto s = reinterpret_cast<reusable_storage_mtsafe **>(reinterpret_cast<char *>(ptr) + sz);
         auto me = *s;
-        if (ptr == me->_ptr) {
+        //the block itself says where it belongs to - the storage's _ptr can't be inspected here,
+        //because the current owner of the reusable block can be replacing it right now
+        if (me) {
             //release - hand over the block to the next owner
             me->_busy.store(false, std::memory_order_release);
         } else {
